@@ -3,6 +3,7 @@ from .. import terms as T
 from ..terms import C, NONE
 from .. import engine as E
 from .. import symeval as SE
+from . import common
 
 RX, DX = ('atom', 'RX', 'intarr'), ('atom', 'DX', 'intarr')
 SIG = ('param', 'sig')
@@ -36,6 +37,9 @@ def check(rep, model, tier):
     rep.rule('BOUNDARY', 'an extremum is kept iff idx > boundary and idx < len(original signal) - boundary (both strict, length before padding)')
     rep.rule('CROSSING', 'find_flank_zerox: crossing at i iff below[i] and not below[i+1] with below = (x <= level) for a rise and (x > level) for a decay; level defaults to 0; '
                          'the centre of the segment when there is no crossing')
+    rep.rule('ARGS-INTACT', 'find_extrema / find_flank_zerox write through none of their arguments: the raw signal is still the caller\'s when the arg-extrema are taken, and a '
+                            'filter_kwargs dictionary is honoured unchanged by every call that receives it (a call that consumes entries makes the next call filter with defaults)')
+    common.args_intact(rep, model, ['find_extrema', 'find_flank_zerox'], why='signal and filter options are inputs of every later call')
     rep.assumptions += ['np.argmax / np.argmin return the first extreme (numpy documentation)', 'algorithmic correctness of the scanning loops is covered only as conformance with the reference loops',
                         'neurodsp filter_signal / compute_filter_length are out of scope (signatures read from the installed source)']
     f = model.find('find_extrema')
